@@ -71,3 +71,18 @@ func TestC04ScalarOperandCodes(t *testing.T) {
 		t.Errorf("SMEM offset register 124 decodes as %s, want m0", inst.Offset.String())
 	}
 }
+
+// v_readlane_b32 writes an SGPR (R04.22).
+func TestC04ReadlaneDestination(t *testing.T) {
+	buf := make([]byte, 8)
+	// VOP3a: v_readlane_b32 s5, v1, s2  (opcode 649 = 0x289)
+	binary.LittleEndian.PutUint32(buf, 0xD0000000|649<<16|5)
+	binary.LittleEndian.PutUint32(buf[4:], 0x101|2<<9)
+	inst, err := NewDisassembler().Decode(buf)
+	if err != nil {
+		t.Fatal(err)
+	}
+	if inst.Dst.Register == nil || !inst.Dst.Register.IsSReg() || inst.Dst.Register.RegIndex() != 5 {
+		t.Errorf("%s decodes its destination as %s, want s5", inst.InstName, inst.Dst.String())
+	}
+}
